@@ -16,6 +16,7 @@ From DnsV Require Import Proofs.Answer Proofs.Compile Proofs.ZoneCut Proofs.Refu
 From DnsV Require Import Proofs.V2Store Proofs.V2Corollaries.
 From Coq Require Import Permutation.
 From DnsV Require Import Spec.AnswerExtra Proofs.AuthSections.
+From DnsV Require Import Proofs.V2Store Proofs.AuthSectionsV2.
 Open Scope N_scope.
 
 (* REFUSED exactly for names outside every zone visible to the client *)
@@ -289,16 +290,94 @@ Theorem C01_answer_exactly_declared_v2 : forall recs L, wf_recs recs -> length L
 Proof. exact answer_exactly_declared_v2. Qed.
 Print Assumptions C01_answer_exactly_declared_v2.
 
-(* C01_served_is_declared_partial.  Proved above for the v1 reader (CDB, RocksDB v1 keys): the
-   REFUSED clause, the NXDOMAIN clause, AA and SOA-on-empty-answer, the exact contents of the answer
-   section (own records, else covering wildcard; type or CNAME; TTL, rdata, candidates and number of
-   addresses), the referral clause (AA clear, NS of the cut in the authority section, glue), the
-   zone-cut walk, row and key round trips.  NOT proved: the additional section of authoritative
-   answers (only soundness is demanded), the authority section of a non-empty answer, DS at or below
-   a delegation (unconstrained by the statement), the link between [at_keys] of a target and the
-   spec's own_records of that name.  The closest-key (v2) reader is covered by the _v2 theorems above
-   through C02's simulation.  The differential run checks all of these clauses on
-   every generated file, query, client and backend (Run/Core.v: spec_c01_obs). *)
+(* the candidates db.AdditionalSectionForRecords offers for a target t and a family ty - the
+   non-wildcard rows of that type under the two keys probed for the lower-cased target ([at_keys],
+   used by C01_referral_glue) - are exactly the declared, visible, non-wildcard address records of
+   that name (Spec/AnswerExtra.addr_records) *)
+Theorem C01_glue_candidates_declared : forall recs L, wf_recs recs -> length L = 2%nat -> forall t ty,
+  Permutation (filter (fun r => negb (r_wild r) && (r_type r =? ty) && true) (at_keys recs L (lower_bytes t)))
+              (addr_records L recs t ty).
+Proof. exact cands_perm. Qed.
+Print Assumptions C01_glue_candidates_declared.
+
+(* the same two statements for the closest-key reader over the v2-keyed store (through C02) *)
+Theorem C01_auth_answer_additional_sound_v2 : forall recs L, wf_recs recs -> length L = 2%nat ->
+  wf_view L recs = true -> forall q n z ecs max x,
+  wf_name n -> nlen (pack n) <= 255 -> lower_bytes (q_name q) = pack n ->
+  (q_edns q = None \/ q_edns q = Some 0) ->
+  zone_cut L recs n = Some z -> authoritative L recs z = true ->
+  serve RDB2 (store_v2 recs) q (LocOk L) ecs max = OReply x ->
+  (item_count (rs_an x) <> 0 -> rs_ns x = []) /\
+  forall pre i post, rs_ex x = pre ++ i :: post ->
+    exists t ty cands,
+      i = IPick t ty (q_class q) cands 1 /\ (ty = 1 \/ ty = 28) /\
+      (exists it, In it (rs_an x ++ rs_ns x) /\ target_of it = Some t) /\
+      has_record (mkMsg (rs_an x) (rs_ns x) pre) t ty = false /\
+      npick 1 cands = 1 /\
+      exists rs, cands = map cand_of rs /\ Permutation rs (addr_records L recs t ty).
+Proof. exact auth_answer_additional_sound_v2. Qed.
+Print Assumptions C01_auth_answer_additional_sound_v2.
+
+Theorem C01_response_is_spec_v2 : forall recs L, wf_recs recs -> Forall wf_ns_rdata recs -> length L = 2%nat ->
+  wf_view L recs = true -> forall q n ecs max x,
+  wf_name n -> nlen (pack n) <= 255 -> lower_bytes (q_name q) = pack n ->
+  (q_edns q = None \/ q_edns q = Some 0) ->
+  serve RDB2 (store_v2 recs) q (LocOk L) ecs max = OReply x ->
+  rs_id x = q_id q /\ rs_question x = question_of q /\
+  match spec_response L recs n (q_type q) with
+  | Refused =>
+      rs_rcode x = 5 /\ rs_aa x = false /\ rs_an x = [] /\ rs_ns x = [] /\ rs_ex x = [] /\ rs_opt x = opt_of q ecs
+  | Referral z nsr =>
+      q_type q <> 43 ->
+      rs_rcode x = 0 /\ rs_aa x = false /\ rs_an x = [] /\
+      (exists ord, Permutation ord nsr /\ rs_ns x = map (ns_item (pack z) (q_class q)) ord) /\
+      extras_sound recs L (q_class q) (rs_an x) (rs_ns x) (rs_ex x) /\ rs_opt x = opt_of q ecs
+  | Answer z nx ans soa =>
+      rs_rcode x = (if nx then 3 else 0) /\ rs_aa x = true /\
+      (exists ord, Permutation ord ans /\ rs_an x = answer_items (q_name q) max ord) /\
+      (if item_count (rs_an x) =? 0 then exists r, In r soa /\ rs_ns x = [soa_item (pack z) r] else rs_ns x = []) /\
+      extras_sound recs L (q_class q) (rs_an x) (rs_ns x) (rs_ex x) /\ rs_opt x = opt_of q ecs
+  end.
+Proof. exact response_is_spec_v2. Qed.
+Print Assumptions C01_response_is_spec_v2.
+
+(* C01_served_is_declared_partial.  C01_response_is_spec above is the whole statement for the v1 reader
+   (CDB, RocksDB v1 keys) over the compiled store; the theorems before it show each clause separately
+   (REFUSED, referral with exact glue, NXDOMAIN, AA and SOA-on-empty-answer, exact answer section,
+   authority and additional section of authoritative answers, zone-cut walk, row and key round trips).
+   Still partial because: (a) the closest-key (v2) reader is covered through C02's simulation
+   (the _v2 theorems above, incl. C01_response_is_spec_v2), not by a direct proof; (b) DS at or below a delegation is unconstrained by the statement and
+   not characterised; (c) [store_v1 recs] is the row-level compiler of Spec/Rows - that the real
+   compilers write exactly these rows is C07's statement and is compared on every check run
+   (Run/Core.v: compile_ok); (d) guards: records with labels of 1..63 lower-case bytes and two-byte
+   location tags (wf_recs), NS rdata a single uncompressed name (wf_ns_rdata, referral clause only),
+   a visible SOA comes with a visible NS (wf_view), EDNS version 0 or no OPT.  The differential run
+   checks all clauses on every generated file, query, client and backend (Run/Core.v: spec_c01_obs). *)
+
+(* the additional section of an authoritative answer is not vacuous: www.z. MX 10 M.z. (target written
+   in upper case); m.z. has an untagged address, one tagged with the client's location ab, a wildcard
+   address and an AAAA tagged with another location: the two visible non-wildcard A records are the
+   candidates (client's location first), one is served; nothing for AAAA *)
+Example C01_example_additional :
+  let recs := [mkRec [[122]] false None 6 60 0 [0; 0; 0; 0; 0; 1; 0; 0; 0; 2; 0; 0; 0; 3; 0; 0; 0; 4; 0; 0; 0; 5];
+               mkRec [[122]] false None 2 60 0 [1; 110; 1; 122; 0];
+               mkRec [[119]; [122]] false None 15 60 0 [0; 10; 1; 77; 1; 122; 0];
+               mkRec [[109]; [122]] false None 1 30 1 [192; 0; 2; 7];
+               mkRec [[109]; [122]] false (Some [97; 98]) 1 40 2 [192; 0; 2; 8];
+               mkRec [[109]; [122]] true None 1 50 1 [192; 0; 2; 9];
+               mkRec [[109]; [122]] false (Some [99; 100]) 28 40 2 [1; 2; 3; 4; 5; 6; 7; 8; 9; 10; 11; 12; 13; 14; 15; 16]] in
+  let q := mkQ 1 [1; 87; 1; 122; 0] 15 1 None in
+  let n := [[119]; [122]] in
+  lower_bytes (q_name q) = pack n /\ wf_view [97; 98] recs = true /\
+  zone_cut [97; 98] recs n = Some [[122]] /\ authoritative [97; 98] recs [[122]] = true /\
+  map cand_of (addr_records [97; 98] recs [1; 77; 1; 122; 0] 1) = [(30, 1, [192; 0; 2; 7]); (40, 2, [192; 0; 2; 8])] /\
+  addr_records [97; 98] recs [1; 77; 1; 122; 0] 28 = [] /\
+  serve CDB (store_v1 recs) q (LocOk [97; 98]) None 1 =
+    OReply (mkResp 1 (Some ([1; 87; 1; 122; 0], 15, 1)) 0 true
+              [IRR (mkRR [1; 87; 1; 122; 0] 15 1 60 [0; 10; 1; 77; 1; 122; 0])] []
+              [IPick [1; 77; 1; 122; 0] 1 1 [(40, 2, [192; 0; 2; 8]); (30, 1, [192; 0; 2; 7])] 1] None).
+Proof. vm_compute. repeat split; reflexivity. Qed.
+Print Assumptions C01_example_additional.
 
 (* the hypotheses are satisfiable with non-trivial values: a zone z. with a wildcard; the name
    a.b.z. has no records of its own and is covered across the wild-safe labels a and b: NOERROR *)
